@@ -149,6 +149,8 @@ pub struct Ctx {
     start: Instant,
     /// strict mode (replay): nothing is tolerated silently
     pub replay_mode: bool,
+    /// how many oracle evaluations the minimisation of one failure may use (expensive checks lower it)
+    pub shrink_budget: std::sync::atomic::AtomicU32,
 }
 
 thread_local! {
@@ -259,7 +261,12 @@ impl Ctx {
             stats: Mutex::new(Stats::default()),
             start: Instant::now(),
             replay_mode: false,
+            shrink_budget: std::sync::atomic::AtomicU32::new(4000),
         }
+    }
+
+    pub fn set_shrink_budget(&self, n: u32) {
+        self.shrink_budget.store(n, Ordering::Relaxed);
     }
 
     pub fn is_known(&self, f: &Fail) -> Option<&Finding> {
@@ -433,7 +440,13 @@ impl Ctx {
         let rng = TestRng::from_seed(RngAlgorithm::ChaCha, &derive_seed(self.seed, &self.id, sub, shard));
         let mut runner = TestRunner::new_with_rng(config, rng);
         let failed = AtomicBool::new(false);
+        let shrink_evals = std::sync::atomic::AtomicU32::new(0);
+        let shrink_budget = self.shrink_budget.load(Ordering::Relaxed);
         let res = runner.run(&strat, |case| {
+            if failed.load(Ordering::Relaxed) && shrink_evals.fetch_add(1, Ordering::Relaxed) >= shrink_budget {
+                // minimisation budget used up (expensive oracles): keep the smallest failing case found so far
+                return Ok(());
+            }
             let out = self.eval(check, &case);
             if failed.load(Ordering::Relaxed) {
                 // shrinking: do not count; a case fails iff it has an unknown failure
